@@ -64,6 +64,8 @@ var zeroOKGlobals = map[string]bool{
 	"internal/bytealg.MaxLen": true,
 	// nil *Location means UTC; location is irrelevant for instants
 	"time.Local": true, "time.UTC": true, "time.localLoc": true, "time.utcLoc": true,
+	// nil *os.File: writes to the standard streams are stubbed
+	"os.Stdout": true, "os.Stderr": true, "os.Stdin": true,
 }
 
 // packages all of whose globals may be used zero-initialised
@@ -170,6 +172,11 @@ func (ld *Loaded) intrinsic(fn *ssa.Function) intrinsicFn {
 	}
 	if ld.disable[name] {
 		h = nil
+	}
+	for d := range ld.disable {
+		if strings.HasSuffix(d, "*") && strings.HasPrefix(name, strings.TrimSuffix(d, "*")) {
+			h = nil
+		}
 	}
 	ld.intrKnown[fn] = true
 	ld.intrCache[fn] = h
